@@ -3,6 +3,7 @@
 package fsmworld
 
 import (
+	"context"
 	"errors"
 	"fmt"
 	"sort"
@@ -62,6 +63,12 @@ type Cluster struct {
 	lostReply bool
 	StreamPub *stream.EventPublisher
 	Failovers int
+
+	// ShellCfg / RPCHook: server shell of another datacenter (C19); nil = dc1 defaults
+	ShellCfg *consul.Config
+	RPCHook  func(ctx context.Context, method string, args, reply interface{}) error
+	// BgFault decides the fault for a proposal made by a background goroutine
+	BgFault func(t structs.MessageType) (fault string, desc string)
 }
 
 type pendingProposal struct {
@@ -88,6 +95,14 @@ func NewClusterPub(run *simkit.Run, gcTTL, gcGran time.Duration, pub *stream.Eve
 	return c
 }
 
+// NewClusterDC: a cluster whose leader shell belongs to datacenter cfg.Datacenter and whose
+// server-to-server RPCs land in rpc.
+func NewClusterDC(run *simkit.Run, gcTTL, gcGran time.Duration, cfg *consul.Config, rpc func(ctx context.Context, method string, args, reply interface{}) error) *Cluster {
+	c := &Cluster{Run: run, GCTTL: gcTTL, GCGran: gcGran, Results: map[uint64]string{}, next: 5, ShellCfg: cfg, RPCHook: rpc}
+	c.newLeader(nil, 0)
+	return c
+}
+
 func (c *Cluster) newLeader(snap []byte, from int) {
 	c.Leaders++
 	if c.StreamPub != nil && c.Leaders > 1 {
@@ -105,7 +120,7 @@ func (c *Cluster) newLeader(snap []byte, from int) {
 		}
 	}
 	c.L.GC.SetEnabled(true)
-	c.Shell = consul.VerifNewShell(nil, c.L.FSM, c.L.GC, &consul.VerifHooks{RaftApply: c.hookRaftApply, IsLeader: func() bool { return true }})
+	c.Shell = consul.VerifNewShell(c.ShellCfg, c.L.FSM, c.L.GC, &consul.VerifHooks{RaftApply: c.hookRaftApply, IsLeader: func() bool { return true }, RPC: c.RPCHook})
 	if err := consul.VerifInitializeSessionTimers(c.Shell); err != nil {
 		panic(err)
 	}
@@ -199,6 +214,9 @@ func (c *Cluster) DrainBackground() {
 			var res proposeResult
 			c.main(func() {
 				c.curDesc = "background(session-ttl)"
+				if c.BgFault != nil {
+					c.curFault, c.curDesc = c.BgFault(p.t)
+				}
 				res.resp, res.err = c.propose(p.t, p.buf)
 			})
 			p.reply <- res
@@ -208,6 +226,35 @@ func (c *Cluster) DrainBackground() {
 			return
 		}
 	}
+}
+
+// HasPending: a background goroutine is parked in a Raft apply.
+func (c *Cluster) HasPending() bool {
+	c.mu.Lock()
+	defer c.mu.Unlock()
+	return len(c.pending) > 0
+}
+
+// FailPending answers every parked proposal with a shutdown error.
+func (c *Cluster) FailPending() {
+	c.mu.Lock()
+	ps := c.pending
+	c.pending = nil
+	c.mu.Unlock()
+	for _, p := range ps {
+		p.reply <- proposeResult{nil, raft.ErrRaftShutdown}
+	}
+}
+
+func (c *Cluster) ClearLostReply() { c.lostReply = false }
+
+// DoNoDrain runs a client command without waiting for background work (usable from a
+// goroutine other than the scheduler's).
+func (c *Cluster) DoNoDrain(s Step) (out Outcome) {
+	c.curOut = &out
+	defer func() { c.curOut = nil }()
+	c.main(func() { c.do(s, &out) })
+	return out
 }
 
 func (c *Cluster) main(f func()) {
